@@ -19,15 +19,15 @@
 //     R2 (13) = { } [ ] , : " \ n a 1 true SP
 //     R3 ( 8) = { } [ ] , : " 1
 //
-//   T1  token strings:  quick    all of length <= 4 over A, length 5 over R1, length 6 over R2, length 7..8 over R3
-//                       thorough all of length <= 5 over A, length 6 over R1, length 7..8 over R2, length 9 over R3
+//   T1  token strings:  quick    all of length <= 4 over A, length 5    over R1, length 6..7 over R2, length 8..9  over R3
+//                       thorough all of length <= 5 over A, length 5..6 over R1, length 6..8 over R2, length 8..10 over R3
 //   T2  byte-exhaustive string bodies  '"' b1 .. bk '"'  with every bi in 0x00..0xFF for k <= 3, and for k = 4
 //          quick    b1 in {C2,DF,5C,E0..FF}, b2 any, b3 and b4 in the 13 boundary bytes 00 22 30 5C 7F 80 8F 90 9F A0 BF C0 FF
 //          thorough b1 in {5C,80..FF},       b2 any, b3 in 32 bytes (every 8th value 00,08,..F8 -- plus -- the boundary set), b4 in the boundary set
 //       plus every byte string of length <= 2 (quick) / <= 3 (thorough) as the complete text (no quotes)
 //   T3  all single token edits (delete a token, replace a token by / insert at every position each token of A)
 //       of a corpus of valid documents that exercises every production; thorough: additionally all double edits
-//       over R1 of the corpus documents of <= 12 tokens
+//       (second edit over R1) of the corpus documents of <= 24 tokens
 //
 // Each library run uses an exact-size malloc'ed buffer without terminator, and is repeated with the same bytes
 // followed by poison tails ("1111" and 80 80 80 '"') that lie OUTSIDE [begin,end).
@@ -427,18 +427,11 @@ int main( int argc, char** argv )
       const int LA = T ? 5 : 4;
       for( int len = 0; ok && len <= LA; ++len ) ok = token_strings( A, len );
       domain_done( "T1_A", ok );
-      if( ok ) ok = token_strings( R1, LA + 1 );
+      for( int len = 5; ok && len <= ( T ? 6 : 5 ); ++len ) ok = token_strings( R1, len );
       domain_done( "T1_R1", ok );
-      if( ok ) ok = token_strings( R2, LA + 2 );
-      if( ok && T ) ok = token_strings( R2, LA + 3 );
+      for( int len = 6; ok && len <= ( T ? 8 : 7 ); ++len ) ok = token_strings( R2, len );
       domain_done( "T1_R2", ok );
-      if( T ) {
-         if( ok ) ok = token_strings( R3, 9 );
-      }
-      else {
-         if( ok ) ok = token_strings( R3, 7 );
-         if( ok ) ok = token_strings( R3, 8 );
-      }
+      for( int len = 8; ok && len <= ( T ? 10 : 9 ); ++len ) ok = token_strings( R3, len );
       domain_done( "T1_R3", ok );
    }
 
@@ -494,7 +487,7 @@ int main( int argc, char** argv )
             const std::string s = join( t, &last );
             check( s, last );
          }
-         if( T && dt.size() <= 12 ) {  // thorough: all double edits over R1 of the short documents
+         if( T && dt.size() <= 24 ) {  // thorough: all double edits (second edit over R1) of the documents of <= 24 tokens
             for( const auto& t : e1 ) {
                e2.clear();
                single_edits( t, R1, e2 );
@@ -513,9 +506,9 @@ int main( int argc, char** argv )
    }
 
    const std::string nc = std::to_string( corpus().size() );
-   const std::string note = T ? "thorough: T1 all token strings len<=5 over the 57-token alphabet A, len 6 over R1(26), len 7..8 over R2(13), len 9 over R3(8); T2 all string bodies \"b1..bk\" k<=3 over all 256 byte values, k=4 with b1 in {5C,80..FF} x b2 any x b3 in 40 bytes x b4 in 13 boundary bytes, "
-                                "all bare byte strings len<=3; T3 all single token edits over A of " + nc + " valid documents and all double edits (second edit over R1) of those with <=12 tokens; every library run repeated with two poison tails behind the input"
-                              : "quick: T1 all token strings len<=4 over the 57-token alphabet A, len 5 over R1(26), len 6 over R2(13), len 7..8 over R3(8); T2 all string bodies \"b1..bk\" k<=3 over all 256 byte values, k=4 with b1 in {C2,DF,5C,E0..FF} x b2 any x b3,b4 in 13 boundary bytes, "
+   const std::string note = T ? "thorough: T1 all token strings len<=5 over the 57-token alphabet A, len 5..6 over R1(26), len 6..8 over R2(13), len 8..10 over R3(8); T2 all string bodies \"b1..bk\" k<=3 over all 256 byte values, k=4 with b1 in {5C,80..FF} x b2 any x b3 in 40 bytes x b4 in 13 boundary bytes, "
+                                "all bare byte strings len<=3; T3 all single token edits over A of " + nc + " valid documents and all double edits (second edit over R1) of those with <=24 tokens; every library run repeated with two poison tails behind the input"
+                              : "quick: T1 all token strings len<=4 over the 57-token alphabet A, len 5 over R1(26), len 6..7 over R2(13), len 8..9 over R3(8); T2 all string bodies \"b1..bk\" k<=3 over all 256 byte values, k=4 with b1 in {C2,DF,5C,E0..FF} x b2 any x b3,b4 in 13 boundary bytes, "
                                 "all bare byte strings len<=2; T3 all single token edits over A of " + nc + " valid documents; every library run repeated with two poison tails behind the input";
    vf::st.note = note + "; this shard:" + g_domain_note;
    flush_counters();
